@@ -127,6 +127,101 @@ def h_history(ctx, skeleton=()):
     ctx.event('history-complete')
 
 
+def h_step(ctx, holding=True, rest=('buy', 'LIMIT', 'STOP'), op=('X', 0)):
+    """H-STEP: one operation from an ARBITRARY valid pre-state (covers histories of any length).
+    pre-state: free quote Q0, base B0 (0 if not holding), resting orders given by `rest` ('buy' = a LIMIT buy whose reserve is already
+    taken, 'LIMIT'/'STOP' = resting reduce-only sells) with symbolic quantities and prices.  The resting orders are created through real
+    submissions while both balances are temporarily huge (nothing is rejected; the exchange's own bookkeeping of resting sells is what
+    the real code built), then the balances are overwritten with the symbolic pre-state.
+    op: ('X', k) execute resting order k | ('C', k) cancel it | ('N', side, type) submit a new order and, if accepted, execute it"""
+    from jesse.exceptions import InsufficientBalance
+    fee = ctx.real('fee', 0, 0.01)
+    cfg = S.config_dict('spot', fee=fee, balance=1e12)
+    api = ApiSession(cfg, symbols=(SYM,), price0=100.0)
+    ex = api.exchange
+    ex.assets['BTC'] = 1e12
+    p = api.positions[SYM]
+    p.qty = 1e12
+    p.entry_price = 100.0
+    p.opened_at = api.store.app.time
+    resting = []
+    for i, kind in enumerate(rest):
+        q = ctx.real('r%d_q' % i, 0.001, 100)
+        pr = ctx.real('r%d_p' % i, 1, 1000)
+        if kind == 'buy':
+            resting.append(api.submit(SYM, 'buy', 'LIMIT', q, pr, False))
+        else:
+            resting.append(api.submit(SYM, 'sell', kind, q, pr, True))
+    Q0 = ctx.real('quote0', 0, 100000)
+    B0 = ctx.real('base0', 0.001, 1000) if holding else 0.0
+    ex.assets['USDT'] = Q0
+    ex.assets['BTC'] = B0
+    p.qty = B0
+    p.previous_qty = 0
+    if not holding:
+        p.entry_price = None
+        p.opened_at = None
+    model = CashModel(Q0, fee)
+    model.base = B0
+    compare(ctx, api, model, 'pre-state')
+    ctx.event('pre-state-holding' if holding else 'pre-state-flat')
+    seen = set()
+
+    def sync():
+        for o in api.orders:
+            if o is not None and o.is_canceled and id(o) not in seen:
+                seen.add(id(o))
+                model.on_cancel(o.side, abs(o.qty) if not sx.is_sym(o.qty) else sx.sabs(o.qty), o.price)
+    if op[0] in ('X', 'C'):
+        if op[1] >= len(resting):
+            return
+        o = resting[op[1]]
+        if op[0] == 'C':
+            o.cancel()
+        else:
+            api.set_price(SYM, o.price)
+            api.tick()
+            model.on_fill(o.side, abs(o.qty) if not sx.is_sym(o.qty) else sx.sabs(o.qty), o.price)
+            o.execute()
+            ctx.event('fill-' + o.side)
+    else:
+        side, typ = op[1], op[2]
+        q = ctx.real('nq', 0.001, 100)
+        pr = ctx.real('np', 1, 1000)
+        if typ == 'MARKET':
+            api.set_price(SYM, pr)
+        must_reject = model.submit_ok(side, typ, q, pr, resting_sells(api))
+        try:
+            o = api.submit(SYM, side, typ, q, pr, side == 'sell')
+            raised = False
+        except InsufficientBalance:
+            raised = True
+        ctx.prove(must_reject if raised else Not(must_reject), 'C04:rejected-iff-overspend-or-oversell', {'after': 'step:' + str(op)})
+        if raised:
+            ctx.event('rejected-submission')
+            return
+        model.on_submit(side, q, pr)
+        compare(ctx, api, model, 'step-submit:' + str(op))
+        api.set_price(SYM, pr)
+        api.tick()
+        model.on_fill(side, q, pr)
+        o.execute()
+        ctx.event('fill-' + side)
+    sync()
+    compare(ctx, api, model, 'step:' + str(op))
+    # the representation invariant must be re-established (it is what the pre-state assumed): the exchange's per-kind totals of resting
+    # sells equal the quantities of the sell orders that are still active.  Skipped if the exchange no longer keeps such totals.
+    if hasattr(ex, 'stop_orders_sum') and hasattr(ex, 'limit_orders_sum'):
+        act = resting_sells(api)
+        for kind, tab in (('STOP', ex.stop_orders_sum), ('LIMIT', ex.limit_orders_sum)):
+            tot = 0.0
+            for (t, rq) in act:
+                if t == kind:
+                    tot = tot + rq
+            ctx.prove(ctx.equal(tab.get(SYM, 0), tot), 'C04:step-preserves-resting-sell-bookkeeping', {'kind': kind, 'after': 'step:' + str(op)})
+    ctx.event('step-complete')
+
+
 def skeletons(length, types=('LIMIT', 'STOP', 'MARKET'), ros=(1,)):
     out = []
 
@@ -147,7 +242,7 @@ def skeletons(length, types=('LIMIT', 'STOP', 'MARKET'), ros=(1,)):
     return [s for s in out if s[0][1] == 'buy']
 
 
-JOBFN = {'h_history': h_history}
+JOBFN = {'h_history': h_history, 'h_step': h_step}
 
 
 def _name(s):
@@ -189,6 +284,21 @@ def _jobs(tier):
             continue
         seen.add(nm)
         jobs.append(Job('hist_' + nm, h_history, {'skeleton': s}, {'nlsat_fallback': True, 'prove_timeout_ms': 15000}))
+    # H-STEP: one operation from an arbitrary pre-state
+    rests = [('buy', 'LIMIT', 'STOP')] if tier == 'quick' else [(), ('buy',), ('LIMIT',), ('STOP',), ('buy', 'LIMIT', 'STOP'), ('LIMIT', 'LIMIT', 'STOP'), ('buy', 'STOP', 'STOP')]
+    for holding in (True, False):
+        for rest in rests:
+            if not holding:
+                # representation invariant: with no base held nothing can rest on the sell side (a sell needs base when it is submitted and
+                # the strategy layer cancels every resting order when the position closes) - flat pre-states carry resting buys only
+                rest = tuple(r for r in rest if r == 'buy')
+            ops = [('X', k) for k in range(len(rest))] + [('C', k) for k in range(len(rest))]
+            ops += [('N', side, typ) for side in ('buy', 'sell') for typ in ('LIMIT', 'STOP', 'MARKET')]
+            for op in ops:
+                if not holding and rest and any(r != 'buy' for r in rest) and op[0] == 'X' and rest[op[1]] != 'buy':
+                    pass  # executing a resting sell while holding nothing: the exchange sells what is held (nothing)
+                jobs.append(Job('step_%s_%s_%s' % ('hold' if holding else 'flat', ''.join(r[0] for r in rest) or 'none', ''.join(str(x)[0] for x in op)), h_step,
+                                {'holding': holding, 'rest': list(rest), 'op': list(op)}, {'nlsat_fallback': True, 'prove_timeout_ms': 15000}))
     return jobs
 
 
@@ -209,7 +319,7 @@ def setup(tier, seed):
         'outside': ['histories longer than 6', 'float rounding and the Decimal helpers (modelled as exact +,-; see C17)', 'several symbols'],
         'stubs': list(jstubs.INSTALLED),
         'assumptions': ['floats as reals', 'a sell fill larger than the base held debits what is held (the only reading consistent with "never negative")'],
-        'must_reach': ['C04:rejected-iff-overspend-or-oversell', 'rejected-submission', 'fill-buy', 'fill-sell', 'cancel-buy', 'cancel-sell'],
+        'must_reach': ['step-complete', 'pre-state-holding', 'pre-state-flat', 'C04:rejected-iff-overspend-or-oversell', 'rejected-submission', 'fill-buy', 'fill-sell', 'cancel-buy', 'cancel-sell'],
     }
 
 
@@ -227,7 +337,8 @@ def signature(v):
 
 
 def make_witness(v):
-    return {'fn': 'h_history', 'kwargs': v['bounds'], 'label': v['label'], 'model': v['model'], 'info': v.get('info')}
+    fn = 'h_step' if v['job'].startswith('step_') else 'h_history'
+    return {'fn': fn, 'kwargs': v['bounds'], 'label': v['label'], 'model': v['model'], 'info': v.get('info')}
 
 
 def replay(w):
